@@ -543,6 +543,90 @@ fn stale_window_check(p: &mut Partial) {
     p.validated += 1;
 }
 
+/// Which draws enter the windows: the real collectors' `register_draw` is called with states at
+/// every trajectory index -8..=8 (built with real leapfrog steps) x {not divergent, divergent} and
+/// the real estimators report whether their window grew. Judged against the property's wording:
+/// a draw that did not move is never counted, a non-divergent draw that moved always is, a
+/// divergent draw is not.
+fn collector_filter(p: &mut Partial) {
+    use nuts_rs::verif::{Collector, Direction, LeapfrogResult, MassMatrixAdaptStrategy, Point, SampleInfo};
+    let d = 2usize;
+    let mut math: M = CpuMath::new(Dens::new(Target::std_normal(d)));
+    let mut mm = nv::diag_mass_matrix_new(&mut math, false);
+    nv::diag_mass_matrix_set(&mut mm, &mut math, &faer::Col::from_fn(d, |_| 1.0), &faer::Col::from_fn(d, |_| 0.0));
+    let mut h = TransformedHamiltonian::new(&mut math, mm, KineticEnergyKind::Euclidean);
+    *h.step_size_mut() = 0.05;
+    let mut rng = ChaCha8Rng::seed_from_u64(4);
+    let setup_failed = |p: &mut Partial, what: &str| p.violation("C09/MACHINERY-filter-setup".to_string(), what.to_string(), json!({}));
+    let Ok(mut st0) = h.init_state(&mut math, &[0.4, -0.3]) else { return setup_failed(p, "init_state") };
+    if h.initialize_trajectory(&mut math, &mut st0, true, &mut rng).is_err() {
+        return setup_failed(p, "initialize_trajectory");
+    }
+    struct Nop;
+    impl<MM: Math, P: Point<MM>> Collector<MM, P> for Nop {}
+    let mut states = vec![(0i64, st0.clone())];
+    for dir in [Direction::Forward, Direction::Backward] {
+        let mut cur = st0.clone();
+        for _ in 0..8 {
+            let e0 = cur.point().initial_energy();
+            match h.leapfrog(&mut math, &cur, dir, 1.0, e0, f64::INFINITY, &mut Nop) {
+                LeapfrogResult::Ok(n) => {
+                    states.push((n.index_in_trajectory(), n.clone()));
+                    cur = n;
+                }
+                _ => return setup_failed(p, "leapfrog"),
+            }
+        }
+    }
+    let div = || nuts_rs::DivergenceInfo {
+        start_momentum: None,
+        start_location: None,
+        start_gradient: None,
+        end_location: None,
+        energy_error: Some(2000.0),
+        end_idx_in_trajectory: Some(9),
+        start_idx_in_trajectory: Some(8),
+        logp_function_error: None,
+    };
+    for (idx, st) in &states {
+        for diverging in [false, true] {
+            for lowrank in [false, true] {
+                let info = SampleInfo { depth: 4, divergence_info: if diverging { Some(div()) } else { None }, reached_maxdepth: false };
+                let counted = if lowrank {
+                    let mut strat = <LowRankMassMatrixStrategy as MassMatrixAdaptStrategy<M>>::new(&mut math, LowRankSettings::default(), 0, 0);
+                    let mut c = <LowRankMassMatrixStrategy as MassMatrixAdaptStrategy<M>>::new_collector(&strat, &mut math);
+                    Collector::<M, nuts_rs::verif::TransformedPoint<M>>::register_draw(&mut c, &mut math, st, &info);
+                    <LowRankMassMatrixStrategy as MassMatrixAdaptStrategy<M>>::update_estimators(&mut strat, &mut math, &c);
+                    <LowRankMassMatrixStrategy as MassMatrixAdaptStrategy<M>>::background_count(&strat)
+                } else {
+                    let mut strat = DiagAdaptStrategy::<M>::new(&mut math, DiagAdaptExpSettings::default(), 0, 0);
+                    let mut c = strat.new_collector(&mut math);
+                    Collector::<M, nuts_rs::verif::TransformedPoint<M>>::register_draw(&mut c, &mut math, st, &info);
+                    strat.update_estimators(&mut math, &c);
+                    strat.background_count()
+                };
+                p.evaluations += 1;
+                p.transitions += 1;
+                let est = if lowrank { "lowrank" } else { "diag" };
+                let replay = json!({"index_in_trajectory": idx, "diverging": diverging, "estimator": est});
+                if counted > 1 {
+                    p.violation(format!("C09/draw-counted-more-than-once/index{idx:+}/{est}"), format!("window grew by {counted}"), replay.clone());
+                }
+                let counted = counted >= 1;
+                p.count(if counted { "filter_probes_counted" } else { "filter_probes_not_counted" }, 1);
+                if *idx == 0 && counted {
+                    p.violation(format!("C09/stuck-draw-counted/diverging-{diverging}/{est}"), "a draw that did not move (index_in_trajectory 0) entered the adaptation window", replay);
+                } else if *idx != 0 && !diverging && !counted {
+                    p.violation(format!("C09/accepted-draw-not-counted/index{idx:+}/{est}"), "a non-divergent draw that moved did not enter the adaptation window", replay);
+                } else if *idx != 0 && diverging && counted {
+                    p.violation(format!("C09/divergent-draw-counted/index{idx:+}/{est}"), format!("a divergent draw (selected state {idx:+} steps from the start) entered the adaptation window"), replay);
+                }
+                p.class(format!("filter:{}:{}:{}", idx.signum(), diverging, counted));
+            }
+        }
+    }
+}
+
 pub fn run(tier: Tier, _replay: Option<String>) -> i32 {
     let mut report = Report::new(
         "C09",
@@ -628,6 +712,7 @@ pub fn run(tier: Tier, _replay: Option<String>) -> i32 {
     {
         let mut p = Partial::new();
         stale_window_check(&mut p);
+        collector_filter(&mut p);
         report.merge(p);
     }
     report.bounds = json!({"all_words_up_to_num_tune": n_all, "dedup_search_up_to_num_tune": n_dedup, "option_sets": opts.len()});
